@@ -9,7 +9,7 @@ SRC=${PM_VERIF_SRC:-/verif}
 if [ "$1" = "-j" ]; then J=$2; shift 2; fi
 cd /verif || exit 2
 [ $# -gt 0 ] || set -- mutants/*.patch seeded/*/patch.diff
-BASE=/tmp/pm
+BASE=${PM_BASE:-/tmp/pm}
 mkdir -p $BASE
 list=$BASE/list.txt; : > $list
 for p in "$@"; do [ -f "$p" ] && realpath "$p" | sed "s|^$SRC/|/verif/|" >> $list; done
